@@ -158,12 +158,18 @@ pub fn run_build(fs: &Fs, rc: &RunCfg, goal: &Option<String>) -> RunResult
 /// `run_build` with the ruler directory given explicitly (the `--directory` option)
 pub fn run_build_in(fs: &Fs, rc: &RunCfg, goal: &Option<String>, ruler_dir: &str) -> RunResult
 {
+    run_build_with(fs, rc, goal, ruler_dir, vec![RULES_FILE.to_string()])
+}
+
+/// ... and with the list of rules files given explicitly (several `--rules` options)
+pub fn run_build_with(fs: &Fs, rc: &RunCfg, goal: &Option<String>, ruler_dir: &str, rules_files: Vec<String>) -> RunResult
+{
     let _w = crate::watch::item(|| (format!("build({}) on a state reached by the harness (no replayable history recorded at this call site)", goal.clone().unwrap_or_default()), serde_json::json!({"engine": "unreplayable"})));
     let mut fs = fs.clone();
     fs.tick();
     let sys = MemSystem::new(fs, mem_cfg(rc));
     let mut printer = RecPrinter::default();
-    let params = BuildParams::from_all(ruler_dir.to_string(), vec![RULES_FILE.to_string()], None, goal.clone());
+    let params = BuildParams::from_all(ruler_dir.to_string(), rules_files, None, goal.clone());
     let r = build::build(sys.clone(), &mut printer, params);
     observe_point(rc);
     let verdict = summarize(&r);
